@@ -3,10 +3,13 @@ package props
 import (
 	"encoding/binary"
 	"fmt"
+	"net"
+	"net/netip"
 	"time"
 
 	"github.com/miekg/dns"
 
+	"verifsim/authsim"
 	"verifsim/kit"
 	"verifsim/simnet"
 	"verifsim/simsock"
@@ -22,6 +25,43 @@ import (
 type C06Scenario struct {
 	C05Scenario
 	Mangle map[int]string `json:"mangle,omitempty"` // op index -> response | notimp | qd2 | qd0 | an2 | badbody | short
+	// UpOpts: EDNS options every authoritative server adds to the OPT of its responses
+	// (keepalive | cookie | padding | unknown | ecs): what an upstream volunteers is not
+	// something the client negotiated.
+	UpOpts []string `json:"up_opts,omitempty"`
+}
+
+// c06UpstreamKeepalive is the idle timeout the simulated upstreams advertise; the server's own
+// advertisement to its stream clients is some other value.
+const c06UpstreamKeepalive = 54321
+
+// c06Upstream decorates the honest authoritative responses with the scenario's options.
+func c06Upstream(sc *C06Scenario, res *kit.Result) func(addr netip.Addr, q *simnet.Query, honest *authsim.Answer) []simnet.Reply {
+	if len(sc.UpOpts) == 0 {
+		return nil
+	}
+	return func(addr netip.Addr, q *simnet.Query, honest *authsim.Answer) []simnet.Reply {
+		o := honest.Msg.IsEdns0()
+		if o == nil {
+			return nil
+		}
+		for _, k := range sc.UpOpts {
+			switch k {
+			case "keepalive":
+				o.Option = append(o.Option, &dns.EDNS0_TCP_KEEPALIVE{Code: dns.EDNS0TCPKEEPALIVE, Timeout: c06UpstreamKeepalive})
+			case "cookie":
+				o.Option = append(o.Option, &dns.EDNS0_COOKIE{Code: dns.EDNS0COOKIE, Cookie: "a1a2a3a4a5a6a7a8b1b2b3b4b5b6b7b8"})
+			case "padding":
+				o.Option = append(o.Option, &dns.EDNS0_PADDING{Padding: make([]byte, 11)})
+			case "unknown":
+				o.Option = append(o.Option, &dns.EDNS0_LOCAL{Code: 65002, Data: []byte{0xbe, 0xef}})
+			case "ecs":
+				o.Option = append(o.Option, &dns.EDNS0_SUBNET{Code: dns.EDNS0SUBNET, Family: 1, SourceNetmask: 24, SourceScope: 24, Address: net.IPv4(203, 0, 113, 0)})
+			}
+		}
+		res.Probes["upstream-volunteered-options"]++
+		return world.PackReply(honest.Msg, q)
+	}
 }
 
 func init() {
@@ -59,6 +99,14 @@ func genC06(r *kit.RNG) *C06Scenario {
 		}
 		if r.Chance(0.12) {
 			sc.Mangle[i] = kit.Pick(r, []string{"response", "notimp", "qd2", "qd0", "an2", "badbody", "short"})
+		}
+	}
+	if r.Chance(0.35) {
+		sc.UpOpts = []string{kit.Pick(r, []string{"keepalive", "keepalive", "keepalive", "cookie", "padding", "unknown", "ecs"})}
+		if r.Chance(0.3) {
+			if k := kit.Pick(r, []string{"keepalive", "cookie", "padding", "unknown"}); k != sc.UpOpts[0] {
+				sc.UpOpts = append(sc.UpOpts, k)
+			}
 		}
 	}
 	return sc
@@ -202,6 +250,18 @@ func c06Judge(raw []byte, qraw []byte, mangle string, proto string) (string, str
 				if proto == "udp" {
 					return "C06/option-reflected", "a keepalive option is returned over UDP"
 				}
+				asked := false
+				for _, x := range qopt.Option {
+					if x.Option() == dns.EDNS0TCPKEEPALIVE {
+						asked = true
+					}
+				}
+				if !asked {
+					return "C06/option-reflected", "a keepalive option is returned to a stream client that sent none"
+				}
+				if ka, ok := o.(*dns.EDNS0_TCP_KEEPALIVE); ok && ka.Timeout == c06UpstreamKeepalive {
+					return "C06/option-reflected", "the upstream's keepalive timeout is returned to the client"
+				}
 			case dns.EDNS0PADDING:
 			default:
 				return "C06/option-reflected", fmt.Sprintf("option %d is returned to the client: %s", o.Option(), o.String())
@@ -259,6 +319,7 @@ func runC06(sc *C06Scenario, tr *kit.Trace) *kit.Result {
 					return
 				}
 				defer g.Close()
+				g.Hook = c06Upstream(sc, res)
 				g.Net.SetFaults(faults)
 				kit.SleepSettle(6 * time.Second)
 				conns := make([]*simsock.StreamConn, len(sc.Ops))
@@ -301,6 +362,7 @@ func runC06(sc *C06Scenario, tr *kit.Trace) *kit.Result {
 					return
 				}
 				defer g.Close()
+				g.Hook = c06Upstream(sc, res)
 				g.Net.SetFaults(faults)
 				kit.SleepSettle(6 * time.Second)
 				for i, op := range sc.Ops {
@@ -325,6 +387,7 @@ func runC06(sc *C06Scenario, tr *kit.Trace) *kit.Result {
 			} else {
 				r := world.NewRes(spec, 6, tr)
 				defer r.Close()
+				r.Hook = c06Upstream(sc, res)
 				r.Net.SetFaults(faults)
 				kit.SleepSettle(6 * time.Second)
 				clients := make([]*world.Client, len(sc.Ops))
